@@ -259,16 +259,29 @@ Proof.
   intros Hne H. unfold win_mean. rewrite (rsum_const c w H).
   assert (0 < INR (length w)) by (apply lt_0_INR; destruct w; [congruence|simpl; lia]). field. lra.
 Qed.
-Lemma speckle_uniform c w : w <> [] -> Forall (eq c) w -> speckle_c w = 0.
-Proof. intros Hne H. unfold speckle_c. rewrite (win_var_uniform c w Hne H). rewrite Rmax_right by lra. rewrite sqrt_0. unfold Rdiv. ring. Qed.
+(* a uniform window of NON-ZERO intensity c: the mean is c (so the quotient is a genuine 0 / c), the contrast 0 *)
+Lemma speckle_uniform c w : w <> [] -> c <> 0 -> Forall (eq c) w -> speckle_defined w /\ speckle_c w = 0.
+Proof.
+  intros Hne Hc H. unfold speckle_defined. rewrite (win_mean_uniform c w Hne H). split; [exact Hc|].
+  unfold speckle_c. rewrite (win_var_uniform c w Hne H), (win_mean_uniform c w Hne H). rewrite Rmax_right by lra. rewrite sqrt_0. field. exact Hc.
+Qed.
+(* strictly positive intensities are in the domain of sigma / mean ... *)
+Lemma speckle_defined_pos w : w <> [] -> Forall (fun x => 0 < x) w -> 0 < win_mean w.
+Proof.
+  intros Hne H. unfold win_mean. apply Rdiv_lt_0_compat; [|apply lt_0_INR; destruct w; [congruence|simpl; lia]].
+  destruct H as [|x l Hx Hl]; [congruence|]. simpl. assert (0 <= rsum l) by (apply rsum_nonneg; eapply Forall_impl; [|exact Hl]; intros; lra). lra.
+Qed.
+(* ... a dark window is a non-negative intensity that is not *)
+Lemma speckle_undefined_dark : exists w, w <> [] /\ Forall (fun x => 0 <= x) w /\ ~ speckle_defined w.
+Proof. exists [0; 0; 0; 0]. split; [discriminate|]. split; [repeat constructor; lra|]. unfold speckle_defined, win_mean. simpl. intros H. apply H. field. Qed.
 Lemma speckle_c_nonneg w : 0 < win_mean w -> 0 <= speckle_c w.
 Proof. intros H. unfold speckle_c, Rdiv. apply Rmult_le_pos; [apply sqrt_pos|left; apply Rinv_0_lt_compat; exact H]. Qed.
 Lemma speckle_loss_nonneg ws : 0 <= speckle_loss ws.
 Proof. apply mse_nonneg. Qed.
-Lemma speckle_loss_uniform ws : Forall (fun w => w <> [] /\ exists c, Forall (eq c) w) ws -> speckle_loss ws = 0.
+Lemma speckle_loss_uniform ws : Forall (fun w => w <> [] /\ exists c, c <> 0 /\ Forall (eq c) w) ws -> speckle_loss ws = 0.
 Proof.
   intros H. unfold speckle_loss. apply mse_identity. apply Forall_map. eapply Forall_impl; [|exact H].
-  intros w [Hne [c Hc]]. simpl. exact (speckle_uniform c w Hne Hc).
+  intros w [Hne [c [Hc0 Hc]]]. simpl. exact (proj2 (speckle_uniform c w Hne Hc0 Hc)).
 Qed.
 
 (* ---- phase gradient *)
@@ -294,6 +307,48 @@ Proof.
   intros Hk H. unfold pg_loss. apply mse_identity. apply Forall_map. eapply Forall_impl; [|exact H].
   intros w [Hl Hw]. simpl. exact (dotp_uniform_zero c k w Hl Hw Hk).
 Qed.
+
+(* ---- multi-scale total variation *)
+Lemma ms_tv_nonneg levels : 0 <= ms_tv levels.
+Proof. unfold ms_tv. apply rsum_nonneg, Forall_map, Forall_forall. intros; apply tv_nonneg. Qed.
+Lemma ms_tv_uniform levels : Forall (Forall (fun img => exists c, uniform_img c img)) levels -> ms_tv levels = 0.
+Proof. intros H. unfold ms_tv. apply rsum_all_zero, Forall_map. eapply Forall_impl; [|exact H]. intros f Hf. apply tv_uniform. exact Hf. Qed.
+
+(* ---- values of the gaze-contingent losses under the determinism contract *)
+Lemma combine_diag (l : list R) : Forall (fun p => fst p = snd p) (combine l l).
+Proof. induction l; simpl; constructor; [reflexivity|assumption]. Qed.
+Lemma mse_combine_refl l : mse (combine l l) = 0.
+Proof. apply mse_identity, combine_diag. Qed.
+Lemma stats_loss_nonneg a b : 0 <= stats_loss a b.
+Proof. unfold stats_loss. apply rmean_nonneg, Forall_map, Forall_forall. intros; apply mse_nonneg. Qed.
+Lemma stats_loss_refl a : stats_loss a a = 0.
+Proof.
+  unfold stats_loss. apply rmean_all_zero, Forall_map. induction a as [|x a IH]; simpl; constructor; [apply mse_combine_refl|exact IH].
+Qed.
+Section GazeLossValueLemmas.
+Variables (Img Gz : Type) (pix : Img -> list R) (statsmaps : Img -> Gz -> list (list R)) (fovea : Gz -> list R)
+          (blurf metam : Img -> Gz -> list R).
+Lemma met_value_nonneg fw img tgt g : 0 <= fw -> 0 <= met_value pix statsmaps fovea fw img tgt g.
+Proof.
+  intros Hf. unfold met_value. pose proof (stats_loss_nonneg (statsmaps img g) (statsmaps tgt g)).
+  pose proof (mse_nonneg (combine (rmul (fovea g) (pix img)) (rmul (fovea g) (pix tgt)))).
+  apply Rplus_le_le_0_compat; [assumption|apply Rmult_le_pos; assumption].
+Qed.
+Lemma met_value_identity fw img g : met_value pix statsmaps fovea fw img img g = 0.
+Proof. unfold met_value. rewrite stats_loss_refl, mse_combine_refl. ring. Qed.
+Lemma blur_lowpass_nonneg img tgt g : 0 <= blur_lowpass_value blurf img tgt g.
+Proof. apply mse_nonneg. Qed.
+Lemma blur_lowpass_identity img g : blur_lowpass_value blurf img img g = 0.
+Proof. apply mse_combine_refl. Qed.
+Lemma blur_match_nonneg img tgt g : 0 <= blur_match_value pix blurf img tgt g.
+Proof. apply mse_nonneg. Qed.
+Lemma blur_match_zero img tgt g : pix img = blurf tgt g -> blur_match_value pix blurf img tgt g = 0.
+Proof. intros H. unfold blur_match_value. rewrite H. apply mse_combine_refl. Qed.
+Lemma metamer_mse_nonneg img tgt g : 0 <= metamer_mse_value pix metam img tgt g.
+Proof. apply mse_nonneg. Qed.
+Lemma metamer_mse_zero img tgt g : pix img = metam tgt g -> metamer_mse_value pix metam img tgt g = 0.
+Proof. intros H. unfold metamer_mse_value. rewrite H. apply mse_combine_refl. Qed.
+End GazeLossValueLemmas.
 Close Scope R_scope.
 
 (* ================================================================== Part 2: histogram loss *)
@@ -441,6 +496,38 @@ Proof.
 Qed.
 Lemma mse_sound d : sound_mse d = true -> history_independent (mse_step d) mse_init.
 Proof. intros Hd. apply (run_by_invariant (mse_step d) mse_init mse_ok); [split; exact I|]. intros. apply mse_step_ok; assumption. Qed.
+
+(* ---- cache hits: under the repaired discipline the LOD map is reused exactly when the stored key EQUALS the
+   (shape, gaze value) of the call, and a miss recomputes it from the arguments of the call *)
+Lemma rvb_hit_iff_key e s sh g : rvb_ok s ->
+  (rvb_hit e s sh g = true <-> s = Some (sh, GVal (gaze_at e g), Lod sh (gaze_at e g))).
+Proof.
+  intros Hs. destruct s as [[[sh0 k] l]|]; simpl; [|split; discriminate].
+  destruct Hs as [v [-> ->]]. simpl. split.
+  - intros H. apply andb_true_iff in H. destruct H as [H1 H2]. apply Z.eqb_eq in H1. apply gaze_eqb_eq in H2. subst. reflexivity.
+  - intros H. inversion H; subst. rewrite Z.eqb_refl. destruct (gaze_at e g) as [a b]. unfold gaze_eqb. simpl. rewrite !Z.eqb_refl. reflexivity.
+Qed.
+Lemma rvb_hit_keeps d e s sh g : rvb_hit e s sh g = true -> fst (rvb_lookup d e s sh g) = s.
+Proof. unfold rvb_hit, rvb_lookup. destruct s as [[[sh0 k] l]|]; [|discriminate]. intros ->. reflexivity. Qed.
+Lemma rvb_miss_recomputes d e s sh g : rvb_hit e s sh g = false -> snd (rvb_lookup d e s sh g) = Lod sh (gaze_at e g).
+Proof. unfold rvb_hit, rvb_lookup. destruct s as [[[sh0 k] l]|]; [intros ->|]; reflexivity. Qed.
+(* MetamericLoss, repaired: the statistics are reused (event 0) only if the stored (target value, gaze value) equals the call's *)
+Lemma met_reuse_iff_key e c kg st rvb i t g : c_shape (tensor_at e i) = c_shape (tensor_at e t) ->
+  (nth 0 (met_events repaired e (Some (c, kg, st), rvb) i t g) 1 = 0 <-> c = tensor_at e t /\ kg = gaze_at e g).
+Proof.
+  intros Hsh. unfold met_events. rewrite Hsh, Z.eqb_refl. simpl.
+  destruct (content_eqb c (tensor_at e t) && gaze_eqb kg (gaze_at e g)) eqn:E; simpl.
+  - apply andb_true_iff in E. destruct E as [E1 E2]. apply content_eqb_eq in E1. apply gaze_eqb_eq in E2. tauto.
+  - split; [discriminate|]. intros [-> ->]. rewrite content_eqb_refl in E. destruct (gaze_at e g) as [a b]. unfold gaze_eqb in E. simpl in E. rewrite !Z.eqb_refl in E. discriminate.
+Qed.
+Lemma mse_reuse_iff_key e c kg m rvb i t g : c_shape (tensor_at e i) = c_shape (tensor_at e t) ->
+  (nth 0 (mse_events repaired e (Some (TVal c, kg, m), rvb) i t g) 1 = 0 <-> c = tensor_at e t /\ kg = gaze_at e g).
+Proof.
+  intros Hsh. unfold mse_events. rewrite Hsh, Z.eqb_refl. simpl.
+  destruct (content_eqb c (tensor_at e t) && gaze_eqb kg (gaze_at e g)) eqn:E; simpl.
+  - apply andb_true_iff in E. destruct E as [E1 E2]. apply content_eqb_eq in E1. apply gaze_eqb_eq in E2. tauto.
+  - split; [discriminate|]. intros [-> ->]. rewrite content_eqb_refl in E. destruct (gaze_at e g) as [a b]. unfold gaze_eqb in E. simpl in E. rewrite !Z.eqb_refl in E. discriminate.
+Qed.
 
 (* ---- the converse: a key that misses an argument is refuted by a short history.
    One environment and one history expose every unsound discipline. *)
